@@ -271,4 +271,25 @@ theorem resolved_sets_agree_off_diagnostics (c1 c2 : ExecutionConfig)
     congrArg StateAffecting.transactionRuntime hsa'
   cases m <;> simp_all [EnabledModules.has, Module.isDiagnostic]
 
+/-! ## (b) emission order of state updates (on C12's model of `Track`) -/
+
+open Radix.Track Radix.KV Radix.SubstateDb
+
+
+/-- `tracked_nodes` is append-only: every `CommitableSubstateStore` operation except the revert of a
+failed transaction keeps the existing nodes in place and can only add a node at the end — the order
+of `tracked_nodes` is the order of first touch. -/
+theorem tracked_order_append_only (t : Track) (op : Track.Op) (hop : op ≠ .revert) :
+    ∃ suffix, (Track.step t op).1.nodes.map (·.1) = t.nodes.map (·.1) ++ suffix :=
+  step_nodes_append_only t op hop
+
+
+/-- The node order of the emitted `StateUpdates`: first-occurrence order of the nodes of the deleted
+partitions (in deletion order) followed by the tracked nodes that carry at least one update (in
+first-touch order). Nothing else — in particular no hash-map iteration — enters. -/
+theorem state_updates_node_order (t : Track) :
+    (Track.toStateUpdates t).2.map (·.1) =
+      ((t.deleted.map (·.1)) ++ ((t.nodes.filter nodeHasUpdates).map (·.1))).foldl ISet.insert [] :=
+  toStateUpdates_keys t
+
 end Radix.C01.Props
